@@ -3,6 +3,7 @@ module verifharness
 go 1.20
 
 require (
+	cloud.google.com/go/iam v1.1.6
 	cloud.google.com/go/kms v1.15.7
 	github.com/google/gce-tcb-verifier v0.2.3-0.20240907002716-116e9ad95165
 	github.com/google/gce-tcb-verifier/gcetcbendorsement v0.0.0
@@ -15,7 +16,6 @@ require (
 )
 
 require (
-	cloud.google.com/go/iam v1.1.6 // indirect
 	github.com/cyphar/filepath-securejoin v0.2.5 // indirect
 	github.com/google/go-configfs-tsm v0.3.2 // indirect
 	github.com/google/logger v1.1.1 // indirect
